@@ -838,7 +838,7 @@ fn family_render(run: &Run, cnt: &Cnt, thorough: bool) {
     if let Some(t) = &s.tck {
       let body = format!("{{\"model\":\"echo\",\"invocable\":\"Echo\",\"input\":[{{\"name\":\"x\",\"value\":{}}}]}}", t);
       let r = post_json("/tck/evaluate", body);
-      let replay = json!({"engine":"c18","setup":"echo","requests":[req_json(&r)],"expected":s.expected.show()});
+      let replay = json!({"engine":"c18","setup":"echo","requests":[req_json(&r)],"expected":s.expected_tck.as_ref().unwrap_or(&s.expected).show()});
       cnt.requests.fetch_add(1, Ordering::Relaxed);
       match send(port, &r) {
         Err(e) => run.violation(&format!("render:no-answer:{}", s.class), &format!("no answer for the typed echo of {}: {}", s.feel, e), replay.clone()),
